@@ -120,6 +120,11 @@ class C02(C01):
             if c["kind"] in ("double", "sandwich") and k < (2 if tier == "quick" else 24):
                 c["fresh_interpreters"] = True
                 k += 1
+        # lone blocks with 0..3 chopped directions (nothing to propagate from: undefined unless all three are chopped)
+        for k in range(6 if tier == "quick" else 40):
+            asm = pc.gen_assembly(rng, 1)
+            axes = rng.sample(range(3), k % 4)
+            cases.append({"kind": "lone", "asm": asm, "chops": [{"block": 0, "axis": a, "calls": pc.gen_chop(rng, ["count", "count_c2c"])} for a in axes]})
         # stacks chopped with one Stack.chop call (oracle only: no model request)
         for _ in range(10 if tier == "quick" else 120):
             cases.append(pc.gen_stack_case(rng))
@@ -174,12 +179,11 @@ class C02(C01):
         if case["kind"] == "stack":
             return None
         tr = impl.get("trace", {})
-        k = 0
-        if "internals" in impl and not impl.get("chop_error") and not impl.get("unrealisable") and not impl.get("extreme"):
-            why = pc.compare_with_model(impl, model[0], level=self.compare_level)
+        k = len(C01.requests(self, case, impl))
+        if k:
+            why = C01.compare(self, case, impl, model[:k])
             if why:
                 return why
-            k = 1
         if "adj" in tr and tr.get("outcome") in ("ok", "undefined"):
             want = f"{tr['outcome']} " + ",".join(f"{a}:{r}" for a, r in tr["calls"]) + "."
             if model[k] != want:
@@ -194,8 +198,8 @@ class C02(C01):
         oc = impl["outcome"]
         if oc == "hang" or impl.get("trace", {}).get("outcome") == "hang":
             return [{"site": "Mesh.write:hang", "what": "propagation did not return within the time limit"}]
-        if impl.get("unrealisable") or impl.get("extreme") or oc == "ValueError":
-            return out
+        if impl.get("unrealisable") or impl.get("extreme") or impl.get("chop_error"):
+            return out  # a ValueError is the expected refusal of a preserved size that does not fit (C03's clause)
         if exp == "undefined" and oc != "UndefinedGradingsError":
             out.append({"site": "Mesh.write:family-without-chop-not-reported-as-undefined", "what": f"outcome {oc}"})
         if exp in ("ok", "any", "inconsistent") and oc == "UndefinedGradingsError":
